@@ -896,12 +896,13 @@ impl Mp4TrackWriter {
         self.update_sample_times(sample.duration);
         self.update_rendering_offsets(sample.rendering_offset);
         self.update_sync_samples(sample.is_sync);
+        // Finish the bookkeeping for this sample before the fallible flush: if writing the chunk
+        // fails, the sample stays recorded in the pending chunk and the counters stay in step.
+        self.update_durations(sample.duration, movie_timescale);
+        self.sample_id += 1;
         if self.is_chunk_full() {
             self.write_chunk(writer)?;
         }
-        self.update_durations(sample.duration, movie_timescale);
-
-        self.sample_id += 1;
 
         Ok(self.trak.tkhd.duration)
     }
@@ -922,7 +923,7 @@ impl Mp4TrackWriter {
             first_chunk: chunk_id,
             samples_per_chunk: self.chunk_samples,
             sample_description_index: 1,
-            first_sample: self.sample_id - self.chunk_samples + 1,
+            first_sample: self.sample_id - self.chunk_samples,
         };
         self.trak.mdia.minf.stbl.stsc.entries.push(entry);
     }
